@@ -60,14 +60,45 @@ package ecs
 //@   loop 1 fires doc: (!o.hasComps || obsCompsIn(o, *mask)) && obsWithOK(o, *mask)
 
 //@ func (*observerManager).FireAdd
-//@   serves C08
+//@   serves C08 C09
 //@   requires obsShape(m) && oldMask != nil && newMask != nil
+//@   assumes  obsWithAggOK(m, uint8(evt)) && obsCompsAggOK(m, uint8(evt)) && obsFlagsOK(m, uint8(evt))
 //@   loop 1 fires doc: (!o.hasComps || (obsCompsIn(o, *newMask) && obsCompsDisjoint(o, *oldMask))) && obsWithOK(o, *oldMask)
+//@   loop 1 invariant same: !found ==> __unchanged()
+//@   loop 1 invariant silent: !found ==> (forall k int :: __trigger(observers[k]) && (0 <= k && k < __idx ==> !docAddW(observers[k], *oldMask, *newMask)))
+//@   ensures  silent: !result ==> old(noneFiresAdd(m, uint8(evt), *oldMask, *newMask))
+//@   modifies nothing
+//@   callbackframe
+
+// Early-out soundness ("whether an observer fires does not depend on which other observers are
+// registered"): when FireRemove reports that nothing fired, no registered observer of the event
+// satisfies the documented predicate. This needs the aggregates to be what RemoveObserver and
+// AddObserver maintain (obsWithAggOK / obsCompsAggOK) and the flags to mean "mask not empty".
+//@ spec func obsFlagsOK(m *observerManager, e uint8) bool :=
+//@   forall k int :: __trigger(m.observers[e][k]) && (0 <= k && k < len(m.observers[e]) ==>
+//@        m.observers[e][k] != nil && (!m.observers[e][k].hasWith || !mempty(m.observers[e][k].withMask)) && (!m.observers[e][k].hasComps || !mempty(m.observers[e][k].compsMask)))
+//@ spec func docRemove(o *observerData, oldMask bitMask, newMask bitMask) bool :=
+//@   (!o.hasComps || (obsCompsIn(o, oldMask) && obsCompsDisjoint(o, newMask))) && obsWithOK(o, oldMask)
+// the same predicate on mask words (quantifier free); docRemoveView proves the two equal
+//@ spec func docRemoveW(o *observerData, oldMask bitMask, newMask bitMask) bool :=
+//@   (!o.hasComps || (msub(o.compsMask, oldMask) && mdisj(o.compsMask, newMask))) && (!o.hasWith || msub(o.withMask, oldMask)) && (!o.hasWithout || mdisj(o.withoutMask, oldMask))
+//@ lemma docRemoveView(o *observerData, oldMask bitMask, newMask bitMask) serves C08 := docRemoveW(o, oldMask, newMask) == docRemove(o, oldMask, newMask)
+//@ pred obsAggsOK(m *observerManager) := forall e uint8 :: __trigger(m.observers[e]) && (obsWithAggOK(m, e) && obsCompsAggOK(m, e) && obsFlagsOK(m, e))
+//@ spec func docAddW(o *observerData, oldMask bitMask, newMask bitMask) bool :=
+//@   (!o.hasComps || (msub(o.compsMask, newMask) && mdisj(o.compsMask, oldMask))) && (!o.hasWith || msub(o.withMask, oldMask)) && (!o.hasWithout || mdisj(o.withoutMask, oldMask))
+//@ spec func noneFiresAdd(m *observerManager, e uint8, oldMask bitMask, newMask bitMask) bool :=
+//@   forall k int :: __trigger(m.observers[e][k]) && (0 <= k && k < len(m.observers[e]) ==> !docAddW(m.observers[e][k], oldMask, newMask))
+//@ spec func noneFiresRemove(m *observerManager, e uint8, oldMask bitMask, newMask bitMask) bool :=
+//@   forall k int :: __trigger(m.observers[e][k]) && (0 <= k && k < len(m.observers[e]) ==> !docRemoveW(m.observers[e][k], oldMask, newMask))
 
 //@ func (*observerManager).FireRemove
 //@   serves C08 C09
 //@   requires obsShape(m) && oldMask != nil && newMask != nil
+//@   assumes  obsWithAggOK(m, uint8(evt)) && obsCompsAggOK(m, uint8(evt)) && obsFlagsOK(m, uint8(evt))
 //@   loop 1 fires doc: (!o.hasComps || (obsCompsIn(o, *oldMask) && obsCompsDisjoint(o, *newMask))) && obsWithOK(o, *oldMask)
+//@   loop 1 invariant same: !found ==> __unchanged()
+//@   loop 1 invariant silent: !found ==> (forall k int :: __trigger(observers[k]) && (0 <= k && k < __idx ==> !docRemoveW(observers[k], *oldMask, *newMask)))
+//@   ensures  silent: !result ==> old(noneFiresRemove(m, uint8(evt), *oldMask, *newMask))
 //@   modifies nothing
 //@   callbackframe
 
